@@ -143,7 +143,8 @@ Fixpoint lexes (ts : list atok) : list str :=
   | t :: ts' => match lex_of t with Some l => l :: lexes ts' | None => lexes ts' end
   end.
 
-Definition hash_in (lex : str) : bool := contains (Str " #") lex.
+(** blank-# in a lexical form; a tab before the # becomes a blank when the line is cleaned *)
+Definition hash_in (lex : str) : bool := contains (Str " #") lex || contains [ascii_of_nat 9; chr "#"] lex.
 
 Definition rc_line (l : line) : list rc :=
   match l with
